@@ -1,7 +1,548 @@
 /-
-Helper lemmas for C07X (15 significant digits).
+Helper lemmas for C07X (15 significant digits): the exponent normalisation and mantissa rounding of
+`f64BitsOfRatNonneg` in the normal range, the value of the assembled pattern, the relative error bound 2^-53,
+and the print-back of decimals with at most 15 significant digits.
 -/
 import SfsModel.Lemmas.TextValue
+import SfsModel.Lemmas.IntText
+import SfsModel.Lemmas.NpyDecode
+import Mathlib.Algebra.Order.Field.Basic
+import Mathlib.Algebra.Order.Field.Rat
+import Mathlib.Tactic.Ring
+import Mathlib.Tactic.Linarith
+import Mathlib.Tactic.FieldSimp
+import Mathlib.Tactic.NormNum
 namespace Sfs
+
+/-! ## powers of two with integer exponents -/
+
+theorem d15_two_ne : (2 : Rat) ≠ 0 := by norm_num
+
+theorem d15_zpow_pos (e : Int) : (0 : Rat) < (2 : Rat) ^ e := zpow_pos (by norm_num) e
+
+theorem d15_zpow_toNat (e : Int) (h : 0 ≤ e) : (((2 : Nat) ^ e.toNat : Nat) : Rat) = (2 : Rat) ^ e := by
+  rw [Nat.cast_pow, Nat.cast_ofNat, ← zpow_natCast, Int.toNat_of_nonneg h]
+
+theorem d15_zpow_nat (k : Nat) : (((2 : Nat) ^ k : Nat) : Rat) = (2 : Rat) ^ (k : Int) := by
+  rw [Nat.cast_pow, Nat.cast_ofNat, zpow_natCast]
+
+theorem d15_zpow_neg_toNat (e : Int) (h : e ≤ 0) :
+    (((2 : Nat) ^ (-e).toNat : Nat) : Rat) * (2 : Rat) ^ e = 1 := by
+  rw [d15_zpow_toNat (-e) (by omega), ← zpow_add₀ d15_two_ne, neg_add_cancel, zpow_zero]
+
+theorem d15_zpow_add (a b : Int) : (2 : Rat) ^ (a + b) = (2 : Rat) ^ a * (2 : Rat) ^ b := zpow_add₀ d15_two_ne a b
+
+theorem d15_zpow_lt (a b : Int) : (2 : Rat) ^ a < (2 : Rat) ^ b ↔ a < b :=
+  zpow_lt_zpow_iff_right₀ (by norm_num)
+
+/-! ## the exact comparison `ge` and the exponent -/
+
+/-- the comparison `2^e ≤ N / D` as computed by `f64BitsOfRatNonneg`. -/
+def d15_ge (N D : Nat) (e : Int) : Bool :=
+  if e ≥ 0 then N ≥ D * 2 ^ e.toNat else N * 2 ^ (-e).toNat ≥ D
+
+theorem d15_ge_iff (N D : Nat) (e : Int) : d15_ge N D e = true ↔ (2 : Rat) ^ e * (D : Rat) ≤ (N : Rat) := by
+  unfold d15_ge
+  by_cases h : e ≥ 0
+  · rw [if_pos h, decide_eq_true_iff, ← d15_zpow_toNat e h, mul_comm]
+    exact_mod_cast Iff.rfl
+  · rw [if_neg h, decide_eq_true_iff]
+    have h1 := d15_zpow_neg_toNat e (by omega)
+    have hp : (0 : Rat) < (((2 : Nat) ^ (-e).toNat : Nat) : Rat) := by
+      exact_mod_cast Nat.pow_pos (by decide)
+    generalize (2 : Nat) ^ (-e).toNat = K at *
+    have h2 : (2 : Rat) ^ e = 1 / (K : Rat) := by
+      rw [eq_div_iff (ne_of_gt hp), mul_comm]; exact h1
+    rw [h2, one_div, inv_mul_le_iff₀ hp, mul_comm]
+    exact_mod_cast Iff.rfl
+
+/-- the exponent chosen by `f64BitsOfRatNonneg`. -/
+def d15_exp (N D : Nat) : Int :=
+  let e0 : Int := (log2Nat N : Int) - (log2Nat D : Int)
+  if d15_ge N D e0 then (if d15_ge N D (e0 + 1) then e0 + 1 else e0) else e0 - 1
+
+theorem d15_log2_rat (n : Nat) (hn : n ≠ 0) :
+    (2 : Rat) ^ (log2Nat n : Int) ≤ (n : Rat) ∧ (n : Rat) < (2 : Rat) ^ ((log2Nat n : Int) + 1) := by
+  obtain ⟨h1, h2⟩ := log2_bounds n hn
+  unfold log2Nat
+  constructor
+  · rw [← d15_zpow_nat]; exact_mod_cast h1
+  · have : ((Nat.log2 n : Int) + 1) = ((Nat.log2 n + 1 : Nat) : Int) := by omega
+    rw [this, ← d15_zpow_nat]; exact_mod_cast h2
+
+/-- the chosen exponent is `floor (log2 (N / D))`. -/
+theorem d15_exp_spec (N D : Nat) (hN : N ≠ 0) (hD : D ≠ 0) :
+    (2 : Rat) ^ (d15_exp N D) * (D : Rat) ≤ (N : Rat) ∧ (N : Rat) < (2 : Rat) ^ (d15_exp N D + 1) * (D : Rat) := by
+  obtain ⟨n1, n2⟩ := d15_log2_rat N hN
+  obtain ⟨d1, d2⟩ := d15_log2_rat D hD
+  have hDpos : (0 : Rat) < (D : Rat) := by exact_mod_cast Nat.pos_of_ne_zero hD
+  unfold d15_exp
+  generalize (log2Nat N : Int) = a at *
+  generalize (log2Nat D : Int) = b at *
+  -- `ge (e0 + 1)` is false, `ge (e0 - 1)` is true
+  have hup : (N : Rat) < (2 : Rat) ^ (a - b + 1) * (D : Rat) := by
+    have e1 : (2 : Rat) ^ (a + 1) = (2 : Rat) ^ (a - b + 1) * (2 : Rat) ^ b := by
+      rw [← d15_zpow_add]; congr 1; omega
+    calc (N : Rat) < (2 : Rat) ^ (a + 1) := n2
+      _ = (2 : Rat) ^ (a - b + 1) * (2 : Rat) ^ b := e1
+      _ ≤ (2 : Rat) ^ (a - b + 1) * (D : Rat) := mul_le_mul_of_nonneg_left d1 (le_of_lt (d15_zpow_pos _))
+  have hdn : (2 : Rat) ^ (a - b - 1) * (D : Rat) ≤ (N : Rat) := by
+    have e1 : (2 : Rat) ^ a = (2 : Rat) ^ (a - b - 1) * (2 : Rat) ^ (b + 1) := by
+      rw [← d15_zpow_add]; congr 1; omega
+    calc (2 : Rat) ^ (a - b - 1) * (D : Rat) ≤ (2 : Rat) ^ (a - b - 1) * (2 : Rat) ^ (b + 1) :=
+          mul_le_mul_of_nonneg_left (le_of_lt d2) (le_of_lt (d15_zpow_pos _))
+      _ = (2 : Rat) ^ a := e1.symm
+      _ ≤ (N : Rat) := n1
+  have hge1 : d15_ge N D (a - b + 1) = false := by
+    rw [← Bool.not_eq_true, d15_ge_iff]; exact not_le.2 hup
+  simp only [hge1, Bool.false_eq_true, if_false]
+  by_cases hg : d15_ge N D (a - b) = true
+  · rw [if_pos hg]
+    exact ⟨(d15_ge_iff _ _ _).1 hg, hup⟩
+  · rw [if_neg hg]
+    refine ⟨hdn, ?_⟩
+    rw [d15_ge_iff, not_le] at hg
+    rw [show a - b - 1 + 1 = a - b by omega]
+    exact hg
+
+/-! ## the scaled pair and the mantissa -/
+
+/-- numerator / denominator of `(N / D) / 2^sh` as computed by `f64BitsOfRatNonneg`. -/
+def d15_pair (N D : Nat) (sh : Int) : Nat × Nat :=
+  if sh ≥ 0 then (N, D * 2 ^ sh.toNat) else (N * 2 ^ (-sh).toNat, D)
+
+theorem d15_pair_spec (N D : Nat) (sh : Int) (hD : D ≠ 0) :
+    0 < (d15_pair N D sh).2 ∧
+      ((d15_pair N D sh).1 : Rat) * ((2 : Rat) ^ sh * (D : Rat)) = (N : Rat) * ((d15_pair N D sh).2 : Rat) := by
+  unfold d15_pair
+  by_cases h : sh ≥ 0
+  · rw [if_pos h]
+    refine ⟨Nat.mul_pos (Nat.pos_of_ne_zero hD) (Nat.pow_pos (by decide)), ?_⟩
+    show (N : Rat) * ((2 : Rat) ^ sh * (D : Rat)) = (N : Rat) * ((D * 2 ^ sh.toNat : Nat) : Rat)
+    rw [Nat.cast_mul, d15_zpow_toNat sh h, mul_comm ((2 : Rat) ^ sh)]
+  · rw [if_neg h]
+    refine ⟨Nat.pos_of_ne_zero hD, ?_⟩
+    show ((N * 2 ^ (-sh).toNat : Nat) : Rat) * ((2 : Rat) ^ sh * (D : Rat)) = (N : Rat) * (D : Rat)
+    rw [Nat.cast_mul, mul_assoc, ← mul_assoc _ ((2 : Rat) ^ sh), d15_zpow_neg_toNat sh (by omega), one_mul]
+
+theorem d15_roundHE_ge (n d : Nat) : n / d ≤ roundHE n d := by
+  unfold roundHE
+  split
+  · omega
+  · split
+    · omega
+    · split <;> omega
+
+/-- cancel a positive natural factor in a rational inequality. -/
+theorem d15_cancel_le (a b : Rat) (d : Nat) (hd : 0 < d) (h : a * (d : Rat) ≤ b * (d : Rat)) : a ≤ b := by
+  have hd' : (0 : Rat) < (d : Rat) := by exact_mod_cast hd
+  exact le_of_mul_le_mul_right h hd'
+
+theorem d15_cancel_lt (a b : Rat) (d : Nat) (hd : 0 < d) (h : a * (d : Rat) < b * (d : Rat)) : a < b := by
+  have hd' : (0 : Rat) < (d : Rat) := by exact_mod_cast hd
+  exact lt_of_mul_lt_mul_right h (le_of_lt hd')
+
+/-- with `2^e ≤ N/D < 2^(e+1)` the scaled quotient lies in `[2^52, 2^53)`. -/
+theorem d15_pair_range (N D : Nat) (e : Int) (hD : D ≠ 0)
+    (h1 : (2 : Rat) ^ e * (D : Rat) ≤ (N : Rat)) (h2 : (N : Rat) < (2 : Rat) ^ (e + 1) * (D : Rat)) :
+    2 ^ 52 * (d15_pair N D (e - 52)).2 ≤ (d15_pair N D (e - 52)).1 ∧
+      (d15_pair N D (e - 52)).1 < 2 ^ 53 * (d15_pair N D (e - 52)).2 := by
+  obtain ⟨hd, hs⟩ := d15_pair_spec N D (e - 52) hD
+  generalize (d15_pair N D (e - 52)).1 = n2 at *
+  generalize (d15_pair N D (e - 52)).2 = d2 at *
+  have hsD : (0 : Rat) < (2 : Rat) ^ (e - 52) * (D : Rat) :=
+    mul_pos (d15_zpow_pos _) (by exact_mod_cast Nat.pos_of_ne_zero hD)
+  have hd2 : (0 : Rat) < (d2 : Rat) := by exact_mod_cast hd
+  have e1 : (2 : Rat) ^ e = (2 : Rat) ^ (52 : Int) * (2 : Rat) ^ (e - 52) := by
+    rw [← d15_zpow_add]; congr 1; omega
+  have e2 : (2 : Rat) ^ (e + 1) = (2 : Rat) ^ (53 : Int) * (2 : Rat) ^ (e - 52) := by
+    rw [← d15_zpow_add]; congr 1; omega
+  constructor
+  · have : (((2 ^ 52 * d2 : Nat)) : Rat) ≤ (n2 : Rat) := by
+      rw [Nat.cast_mul, d15_zpow_nat 52]
+      apply le_of_mul_le_mul_right _ hsD
+      rw [hs]
+      calc (2 : Rat) ^ ((52 : Nat) : Int) * (d2 : Rat) * ((2 : Rat) ^ (e - 52) * (D : Rat))
+          = ((2 : Rat) ^ (52 : Int) * (2 : Rat) ^ (e - 52) * (D : Rat)) * (d2 : Rat) := by push_cast; ring
+        _ ≤ (N : Rat) * (d2 : Rat) := by rw [← e1]; exact mul_le_mul_of_nonneg_right h1 (le_of_lt hd2)
+    exact_mod_cast this
+  · have : (n2 : Rat) < (((2 ^ 53 * d2 : Nat)) : Rat) := by
+      rw [Nat.cast_mul, d15_zpow_nat 53]
+      apply lt_of_mul_lt_mul_right _ (le_of_lt hsD)
+      rw [hs]
+      calc (N : Rat) * (d2 : Rat) < ((2 : Rat) ^ (e + 1) * (D : Rat)) * (d2 : Rat) :=
+            mul_lt_mul_of_pos_right h2 hd2
+        _ = (2 : Rat) ^ ((53 : Nat) : Int) * (d2 : Rat) * ((2 : Rat) ^ (e - 52) * (D : Rat)) := by
+            rw [e2]; push_cast; ring
+    exact_mod_cast this
+
+/-- the mantissa lies in `[2^52, 2^53]`. -/
+theorem d15_mant_range (n2 d2 : Nat) (hd : 0 < d2) (h1 : 2 ^ 52 * d2 ≤ n2) (h2 : n2 < 2 ^ 53 * d2) :
+    2 ^ 52 ≤ roundHE n2 d2 ∧ roundHE n2 d2 ≤ 2 ^ 53 := by
+  constructor
+  · exact Nat.le_trans ((Nat.le_div_iff_mul_le hd).2 h1) (d15_roundHE_ge n2 d2)
+  · exact roundHE_le n2 d2 _ h2
+
+/-- the rounded mantissa times `2^sh` is within half a unit `2^sh` of `N / D`. -/
+theorem d15_mant_error (N D : Nat) (sh : Int) (hD : D ≠ 0) :
+    absRat ((roundHE (d15_pair N D sh).1 (d15_pair N D sh).2 : Rat) * (2 : Rat) ^ sh - (N : Rat) / (D : Rat))
+      ≤ (2 : Rat) ^ sh / 2 := by
+  obtain ⟨hd, hs⟩ := d15_pair_spec N D sh hD
+  obtain ⟨b1, b2⟩ := roundHE_bounds (d15_pair N D sh).1 (d15_pair N D sh).2 hd
+  generalize (d15_pair N D sh).1 = n2 at *
+  generalize (d15_pair N D sh).2 = d2 at *
+  generalize roundHE n2 d2 = m at *
+  have hDp : (0 : Rat) < (D : Rat) := by exact_mod_cast Nat.pos_of_ne_zero hD
+  have hd2 : (0 : Rat) < (d2 : Rat) := by exact_mod_cast hd
+  have hsp := d15_zpow_pos sh
+  generalize (2 : Rat) ^ sh = s at *
+  have b1' : (2 * ((m : Rat) * (d2 : Rat)) : Rat) ≤ 2 * (n2 : Rat) + (d2 : Rat) := by exact_mod_cast b1
+  have b2' : (2 * (n2 : Rat) : Rat) ≤ 2 * ((m : Rat) * (d2 : Rat)) + (d2 : Rat) := by exact_mod_cast b2
+  have hq : (N : Rat) / (D : Rat) = (n2 : Rat) / (d2 : Rat) * s := by
+    rw [div_mul_eq_mul_div, div_eq_div_iff (ne_of_gt hDp) (ne_of_gt hd2), ← hs]; ring
+  have hn2 : (n2 : Rat) = (n2 : Rat) / (d2 : Rat) * (d2 : Rat) := (div_mul_cancel₀ _ (ne_of_gt hd2)).symm
+  generalize (n2 : Rat) / (d2 : Rat) = r at *
+  rw [hq]
+  have x1 : (m : Rat) - r ≤ 1 / 2 := by
+    apply le_of_mul_le_mul_right _ hd2
+    rw [hn2] at b1'; linarith
+  have x2 : -(1 / 2) ≤ (m : Rat) - r := by
+    apply le_of_mul_le_mul_right _ hd2
+    rw [hn2] at b2'; linarith
+  apply absRat_le_of
+  · have := mul_le_mul_of_nonneg_right x2 (le_of_lt hsp); linarith
+  · have := mul_le_mul_of_nonneg_right x1 (le_of_lt hsp); linarith
+
+/-! ## the assembled pattern -/
+
+theorem d15_f64Val_normal (E mm : Nat) (hE0 : 0 < E) (hE : E < 2047) :
+    f64Val false E mm = .fin (((2 ^ 52 + mm : Nat) : Rat) * (2 : Rat) ^ ((E : Int) - 1075)) := by
+  by_cases h : E < 1075
+  · rw [f64Val_frac false E mm hE0 h]
+    simp only [Bool.false_eq_true, if_false]
+    have e1 : (E : Int) - 1075 = -((1075 - E : Nat) : Int) := by omega
+    rw [e1, d15_zpow_nat, div_eq_mul_inv, ← zpow_neg]
+  · rw [f64Val_int false E mm ((2^52+mm) * 2^(E-1075)) hE0 hE (by intro; omega) (by intro; rfl)]
+    simp only [Bool.false_eq_true, if_false]
+    have e1 : (E : Int) - 1075 = ((E - 1075 : Nat) : Int) := by omega
+    rw [e1, Nat.cast_mul, d15_zpow_nat]
+
+theorem d15_core_normal (N D : Nat) (h1 : -1022 ≤ d15_exp N D) (h2 : d15_exp N D ≤ 1022) :
+    it_core N D =
+      (if roundHE (d15_pair N D (d15_exp N D - 52)).1 (d15_pair N D (d15_exp N D - 52)).2 = 2 ^ 53
+       then (d15_exp N D + 1 + 1023).toNat * 2 ^ 52 + (2 ^ 52 - 2 ^ 52)
+       else (d15_exp N D + 1023).toNat * 2 ^ 52 +
+        (roundHE (d15_pair N D (d15_exp N D - 52)).1 (d15_pair N D (d15_exp N D - 52)).2 - 2 ^ 52)) := by
+  unfold it_core
+  extract_lets e0 ge e eeff sh
+  have he : e = d15_exp N D := rfl
+  have hnl : ¬ (e < -1022) := by omega
+  have heeff : eeff = e := by simp only [eeff]; rw [if_neg hnl]
+  have hsh : sh = e - 52 := by simp only [sh, heeff]
+  have hpair : (if sh ≥ 0 then (N, D * 2 ^ sh.toNat) else (N * 2 ^ (-sh).toNat, D)) = d15_pair N D (e - 52) := by
+    rw [hsh]; rfl
+  clear_value sh eeff e ge e0
+  rw [hpair, ← he]
+  generalize d15_pair N D (e - 52) = pr
+  obtain ⟨n2, d2⟩ := pr
+  show (if e < -1022 then roundHE n2 d2 else
+        match if roundHE n2 d2 = 2 ^ 53 then (2 ^ 52, eeff + 1) else (roundHE n2 d2, eeff) with
+        | (m, ee) => if ee > 1023 then 2047 * 2 ^ 52 else (ee + 1023).toNat * 2 ^ 52 + (m - 2 ^ 52)) = _
+  rw [if_neg hnl, heeff]
+  generalize roundHE n2 d2 = m
+  by_cases hm : m = 2 ^ 53
+  · rw [if_pos hm, if_pos hm]
+    show (if e + 1 > 1023 then 2047 * 2 ^ 52 else (e + 1 + 1023).toNat * 2 ^ 52 + (2 ^ 52 - 2 ^ 52)) = _
+    rw [if_neg (by omega)]
+  · rw [if_neg hm, if_neg hm]
+    show (if e > 1023 then 2047 * 2 ^ 52 else (e + 1023).toNat * 2 ^ 52 + (m - 2 ^ 52)) = _
+    rw [if_neg (by omega)]
+
+theorem d15_bits_value (E mm : Nat) (hE0 : 0 < E) (hE : E < 2047) (hmm : mm < 2 ^ 52) :
+    f64OfBits (E * 2 ^ 52 + mm) = .fin (((2 ^ 52 + mm : Nat) : Rat) * (2 : Rat) ^ ((E : Int) - 1075)) ∧
+      E * 2 ^ 52 + mm < 2 ^ 63 := by
+  constructor
+  · have := f64OfBits_mk 0 E mm (by omega) (by omega) hmm
+    rw [Nat.zero_mul, Nat.zero_add] at this
+    rw [this]
+    exact d15_f64Val_normal E mm hE0 hE
+  · omega
+
+theorem d15_aux (A B : Nat) (h : A * 2 = B) (x : Rat) : (A : Rat) * (2 * x) = (B : Rat) * x := by
+  rw [← h, Nat.cast_mul, Nat.cast_ofNat]; ring
+
+/-- value of the pattern in the normal range, with explicit exponent and mantissa. -/
+theorem d15_core_value (N D : Nat) (hN : N ≠ 0) (hD : D ≠ 0) (h1 : -1022 ≤ d15_exp N D) (h2 : d15_exp N D ≤ 1022) :
+    f64OfBits (it_core N D) =
+      .fin ((roundHE (d15_pair N D (d15_exp N D - 52)).1 (d15_pair N D (d15_exp N D - 52)).2 : Rat) *
+        (2 : Rat) ^ (d15_exp N D - 52)) ∧ it_core N D < 2 ^ 63 := by
+  obtain ⟨s1, s2⟩ := d15_exp_spec N D hN hD
+  obtain ⟨r1, r2⟩ := d15_pair_range N D _ hD s1 s2
+  obtain ⟨hd, _⟩ := d15_pair_spec N D (d15_exp N D - 52) hD
+  obtain ⟨m1, m2⟩ := d15_mant_range _ _ hd r1 r2
+  rw [d15_core_normal N D h1 h2]
+  generalize roundHE (d15_pair N D (d15_exp N D - 52)).1 (d15_pair N D (d15_exp N D - 52)).2 = m at *
+  generalize d15_exp N D = e at *
+  by_cases hm : m = 2 ^ 53
+  · rw [if_pos hm]
+    obtain ⟨v1, v2⟩ := d15_bits_value (e + 1 + 1023).toNat (2 ^ 52 - 2 ^ 52) (by omega) (by omega) (by omega)
+    refine ⟨?_, v2⟩
+    rw [v1, hm]
+    congr 1
+    have e1 : (((e + 1 + 1023).toNat : Nat) : Int) - 1075 = 1 + (e - 52) := by omega
+    have h : (2 ^ 52 + (2 ^ 52 - 2 ^ 52)) * 2 = 2 ^ 53 := by decide
+    rw [e1, d15_zpow_add, zpow_one]
+    exact d15_aux _ _ h _
+  · rw [if_neg hm]
+    obtain ⟨v1, v2⟩ := d15_bits_value (e + 1023).toNat (m - 2 ^ 52) (by omega) (by omega) (by omega)
+    refine ⟨?_, v2⟩
+    have a1 : 2 ^ 52 + (m - 2 ^ 52) = m := by omega
+    have a2 : (((e + 1023).toNat : Nat) : Int) - 1075 = e - 52 := by omega
+    rw [v1, a1, a2]
+
+/-! ## the nearest binary64 in the normal range -/
+
+theorem d15_nearest_zpow (q : Rat) (hlo : (2 : Rat) ^ (-1022 : Int) ≤ q) (hhi : q < (2 : Rat) ^ (1023 : Int)) :
+    ∃ v : Rat, f64OfBits (f64BitsOfRatNonneg q) = .fin v ∧ absRat (v - q) * (2 : Rat) ^ (53 : Int) ≤ q ∧
+      f64BitsOfRatNonneg q < 2 ^ 63 := by
+  have hq : 0 < q := lt_of_lt_of_le (d15_zpow_pos _) hlo
+  have hN : q.num.natAbs ≠ 0 := by
+    have := Rat.num_pos.2 hq
+    omega
+  have hD : q.den ≠ 0 := q.den_nz
+  have hDp : (0 : Rat) < (q.den : Rat) := rat_den_pos q
+  have hqe := rat_eq_natAbs_div q (le_of_lt hq)
+  obtain ⟨s1, s2⟩ := d15_exp_spec _ _ hN hD
+  rw [it_nonneg_eq q hq]
+  have me := d15_mant_error q.num.natAbs q.den (d15_exp q.num.natAbs q.den - 52) hD
+  rw [← hqe] at me
+  have t1 : (2 : Rat) ^ (d15_exp q.num.natAbs q.den) ≤ q := by
+    have := (le_div_iff₀ hDp).2 s1; rwa [← hqe] at this
+  have t2 : q < (2 : Rat) ^ (d15_exp q.num.natAbs q.den + 1) := by
+    have := (div_lt_iff₀ hDp).2 s2; rwa [← hqe] at this
+  have b1 : d15_exp q.num.natAbs q.den < 1023 := (d15_zpow_lt _ _).1 (lt_of_le_of_lt t1 hhi)
+  have b2 : -1022 < d15_exp q.num.natAbs q.den + 1 := (d15_zpow_lt _ _).1 (lt_of_le_of_lt hlo t2)
+  obtain ⟨c1, c2⟩ := d15_core_value _ _ hN hD (by omega) (by omega)
+  refine ⟨_, c1, ?_, c2⟩
+  generalize d15_exp q.num.natAbs q.den = e at *
+  generalize (roundHE (d15_pair q.num.natAbs q.den (e - 52)).1 (d15_pair q.num.natAbs q.den (e - 52)).2 : Rat) *
+    (2 : Rat) ^ (e - 52) = v at *
+  have e1 : (2 : Rat) ^ (e - 52) / 2 * (2 : Rat) ^ (53 : Int) = (2 : Rat) ^ e := by
+    have : (2 : Rat) ^ (e + 1) = (2 : Rat) ^ (e - 52) * (2 : Rat) ^ (53 : Int) := by
+      rw [← d15_zpow_add]; congr 1; omega
+    have h2 : (2 : Rat) ^ (e + 1) = (2 : Rat) ^ e * 2 := by rw [d15_zpow_add, zpow_one]
+    linarith
+  calc absRat (v - q) * (2 : Rat) ^ (53 : Int) ≤ (2 : Rat) ^ (e - 52) / 2 * (2 : Rat) ^ (53 : Int) :=
+        mul_le_mul_of_nonneg_right me (le_of_lt (d15_zpow_pos _))
+    _ = (2 : Rat) ^ e := e1
+    _ ≤ q := t1
+
+set_option exponentiation.threshold 2000 in
+theorem d15_nearest (q : Rat) (hlo : (1 : Rat) / ((2 ^ 1022 : Nat) : Rat) ≤ q) (hhi : q < ((2 ^ 1023 : Nat) : Rat)) :
+    ∃ v : Rat, f64OfBits (f64BitsOfRatNonneg q) = .fin v ∧ absRat (v - q) * ((2 ^ 53 : Nat) : Rat) ≤ q ∧
+      f64BitsOfRatNonneg q < 2 ^ 63 := by
+  rw [d15_zpow_nat 1022, one_div, ← zpow_neg] at hlo
+  rw [d15_zpow_nat 1023] at hhi
+  rw [d15_zpow_nat 53]
+  exact d15_nearest_zpow q hlo hhi
+
+/-! ## printing the nearest binary64 of a short decimal -/
+
+theorem d15_roundHE_unique (n d k : Nat) (hd : 0 < d) (h1 : 2 * n < 2 * (k * d) + d) (h2 : 2 * (k * d) < 2 * n + d) :
+    roundHE n d = k := by
+  obtain ⟨b1, b2⟩ := roundHE_bounds n d hd
+  generalize roundHE n d = r at *
+  have c1 : r * d < (k + 1) * d := by rw [Nat.add_mul, Nat.one_mul]; omega
+  have c2 : k * d < (r + 1) * d := by rw [Nat.add_mul, Nat.one_mul]; omega
+  have d1 := Nat.lt_of_mul_lt_mul_right c1
+  have d2 := Nat.lt_of_mul_lt_mul_right c2
+  omega
+
+theorem d15_roundHE_exact (k d : Nat) (hd : 0 < d) : roundHE (k * d) d = k :=
+  d15_roundHE_unique _ _ _ hd (by omega) (by omega)
+
+theorem d15_absRat_ge (x : Rat) : x ≤ absRat x ∧ -x ≤ absRat x := by
+  unfold absRat; split <;> constructor <;> linarith
+
+/-- a decimal `M / T` prints as `M`. -/
+theorem d15_scaled_exact (t : Rat) (M T : Nat) (hT : 0 < T) (ht : t = (M : Rat) / (T : Rat)) :
+    roundHE (t.num.natAbs * T) t.den = M := by
+  have hT' : (0 : Rat) < (T : Rat) := by exact_mod_cast hT
+  have h0 : 0 ≤ t := by rw [ht]; exact div_nonneg (Nat.cast_nonneg _) (Nat.cast_nonneg _)
+  have hqe := rat_eq_natAbs_div t h0
+  have hb := rat_den_pos t
+  have hd := t.den_pos
+  generalize t.num.natAbs = a at *
+  generalize t.den = b at *
+  have key : a * T = M * b := by
+    have : (a : Rat) / (b : Rat) = (M : Rat) / (T : Rat) := by rw [← hqe, ht]
+    rw [div_eq_div_iff (ne_of_gt hb) (ne_of_gt hT')] at this
+    exact_mod_cast this
+  rw [key]
+  exact d15_roundHE_exact M b hd
+
+/-- a value within relative distance `1/K` of `M / T`, `2·M < K`, prints as `M`. -/
+theorem d15_round_back (v t : Rat) (M T C K : Nat) (hT : 0 < T) (hM : M < C) (hK : 2 * C < K)
+    (ht : t = (M : Rat) / (T : Rat)) (hv : 0 ≤ v) (h : absRat (v - t) * (K : Rat) ≤ t) :
+    roundHE (v.num.natAbs * T) v.den = M := by
+  have hT' : (0 : Rat) < (T : Rat) := by exact_mod_cast hT
+  have hM' : (M : Rat) < (C : Rat) := by exact_mod_cast hM
+  have hK' : 2 * (C : Rat) < (K : Rat) := by exact_mod_cast hK
+  have hKp : (0 : Rat) < (K : Rat) := by
+    have : (0 : Rat) ≤ (C : Rat) := Nat.cast_nonneg _
+    linarith
+  have htT : t * (T : Rat) = (M : Rat) := by rw [ht]; exact div_mul_cancel₀ _ (ne_of_gt hT')
+  obtain ⟨g1, g2⟩ := d15_absRat_ge (v - t)
+  have h1 : (v - t) * (K : Rat) ≤ t := le_trans (mul_le_mul_of_nonneg_right g1 (le_of_lt hKp)) h
+  have h2 : (t - v) * (K : Rat) ≤ t := by
+    have := le_trans (mul_le_mul_of_nonneg_right g2 (le_of_lt hKp)) h
+    linarith
+  -- scaled by T
+  have x1 : (v * (T : Rat) - (M : Rat)) * (K : Rat) ≤ (M : Rat) := by
+    have := mul_le_mul_of_nonneg_right h1 (le_of_lt hT')
+    rw [← htT]; linarith
+  have x2 : ((M : Rat) - v * (T : Rat)) * (K : Rat) ≤ (M : Rat) := by
+    have := mul_le_mul_of_nonneg_right h2 (le_of_lt hT')
+    rw [← htT]; linarith
+  have y1 : v * (T : Rat) - (M : Rat) < 1 / 2 := by
+    apply lt_of_mul_lt_mul_right _ (le_of_lt hKp)
+    linarith
+  have y2 : (M : Rat) - v * (T : Rat) < 1 / 2 := by
+    apply lt_of_mul_lt_mul_right _ (le_of_lt hKp)
+    linarith
+  have hqe := rat_eq_natAbs_div v hv
+  have hb := rat_den_pos v
+  have hd := v.den_pos
+  generalize v.num.natAbs = a at *
+  generalize v.den = b at *
+  have ha : (a : Rat) = v * (b : Rat) := by rw [hqe]; exact (div_mul_cancel₀ _ (ne_of_gt hb)).symm
+  have z1 := mul_pos (sub_pos.2 y1) hb
+  have z2 := mul_pos (sub_pos.2 y2) hb
+  apply d15_roundHE_unique _ _ _ hd
+  · have : (2 * ((a : Rat) * (T : Rat)) : Rat) < 2 * ((M : Rat) * (b : Rat)) + (b : Rat) := by
+      rw [ha]; linarith
+    exact_mod_cast this
+  · have : (2 * ((M : Rat) * (b : Rat)) : Rat) < 2 * ((a : Rat) * (T : Rat)) + (b : Rat) := by
+      rw [ha]; linarith
+    exact_mod_cast this
+
+theorem d15_consts : 10 ^ 300 ≤ 2 ^ 1022 ∧ 10 ^ 15 ≤ 2 ^ 1023 ∧ 2 * 10 ^ 15 < 2 ^ 53 := by decide +kernel
+
+set_option exponentiation.threshold 2000 in
+theorem d15_range (M p : Nat) (hM0 : 0 < M) (hM : M < 10 ^ 15) (hp : p ≤ 300) :
+    (1 : Rat) / ((2 ^ 1022 : Nat) : Rat) ≤ (M : Rat) / ((10 ^ p : Nat) : Rat) ∧
+      (M : Rat) / ((10 ^ p : Nat) : Rat) < ((2 ^ 1023 : Nat) : Rat) := by
+  obtain ⟨c1, c2, _⟩ := d15_consts
+  have hT : 0 < 10 ^ p := Nat.pow_pos (by decide)
+  have hT2 : 10 ^ p ≤ 10 ^ 300 := Nat.pow_le_pow_right (by decide) hp
+  have hA : 0 < 2 ^ 1022 := Nat.pow_pos (by decide)
+  have hB : 0 < 2 ^ 1023 := Nat.pow_pos (by decide)
+  generalize 10 ^ p = T at *
+  generalize 2 ^ 1022 = A at *
+  generalize 2 ^ 1023 = B at *
+  generalize 10 ^ 300 = X at *
+  generalize 10 ^ 15 = C at *
+  have hT' : (0 : Rat) < (T : Rat) := by exact_mod_cast hT
+  have hA' : (0 : Rat) < (A : Rat) := by exact_mod_cast hA
+  constructor
+  · rw [div_le_div_iff₀ hA' hT']
+    have : 1 * T ≤ M * A := by
+      rw [Nat.one_mul]
+      exact Nat.le_trans (Nat.le_trans hT2 c1) (Nat.le_mul_of_pos_left _ hM0)
+    exact_mod_cast this
+  · apply nat_div_lt M T B hT
+    exact Nat.lt_of_lt_of_le hM (Nat.le_trans c2 (Nat.le_mul_of_pos_right _ hT))
+
+theorem d15_close_nonneg (v t K : Rat) (hK : 1 ≤ K) (h : absRat (v - t) * K ≤ t) : 0 ≤ v := by
+  obtain ⟨_, g2⟩ := d15_absRat_ge (v - t)
+  have := mul_le_mul_of_nonneg_left hK (absRat_nonneg (v - t))
+  linarith
+
+theorem d15_sign_of_lt (b : Nat) (h : b < 2 ^ 63) : f64Sign b = false := by
+  unfold f64Sign
+  rw [Nat.div_eq_of_lt h]
+  rfl
+
+/-- print-back with the side facts needed downstream. -/
+theorem d15_print_back (M p : Nat) (hM : M < 10 ^ 15) (hp : p ≤ 300) :
+    fmtFixed (f64BitsOfRatNonneg ((M : Rat) / ((10 ^ p : Nat) : Rat))) p = fmtScaled M p ∧
+    fmtRatFixed ((M : Rat) / ((10 ^ p : Nat) : Rat)) p = fmtScaled M p ∧
+    f64BitsOfRatNonneg ((M : Rat) / ((10 ^ p : Nat) : Rat)) < 2 ^ 63 ∧
+    ∃ v, f64OfBits (f64BitsOfRatNonneg ((M : Rat) / ((10 ^ p : Nat) : Rat))) = .fin v := by
+  have hT : 0 < 10 ^ p := Nat.pow_pos (by decide)
+  have hR : fmtRatFixed ((M : Rat) / ((10 ^ p : Nat) : Rat)) p = fmtScaled M p := by
+    rw [fmtRatFixed_eq, d15_scaled_exact _ M (10 ^ p) hT rfl]
+  by_cases hM0 : M = 0
+  · subst hM0
+    have hz : f64BitsOfRatNonneg (((0 : Nat) : Rat) / ((10 ^ p : Nat) : Rat)) = 0 :=
+      f64BitsOfRatNonneg_zero _ (by rw [Nat.cast_zero, zero_div])
+    rw [hz]
+    refine ⟨?_, hR, by decide, 0, f64OfBits_zero⟩
+    rw [fmtFixed_fin 0 p 0 f64OfBits_zero, d15_sign_of_lt 0 (by decide), absRat_of_nonneg 0 (le_refl _),
+      fmtRatFixed_eq]
+    have := d15_scaled_exact 0 0 (10 ^ p) hT (by rw [Nat.cast_zero, zero_div])
+    rw [this]
+    rfl
+  · obtain ⟨r1, r2⟩ := d15_range M p (Nat.pos_of_ne_zero hM0) hM hp
+    obtain ⟨v, hv, herr, hlt⟩ := d15_nearest _ r1 r2
+    refine ⟨?_, hR, hlt, v, hv⟩
+    have hK1 : (1 : Rat) ≤ ((2 ^ 53 : Nat) : Rat) := by exact_mod_cast Nat.one_le_two_pow
+    have hv0 := d15_close_nonneg _ _ _ hK1 herr
+    rw [fmtFixed_fin _ p v hv, d15_sign_of_lt _ hlt, absRat_of_nonneg v hv0, fmtRatFixed_eq,
+      d15_round_back v _ M (10 ^ p) (10 ^ 15) (2 ^ 53) hT hM d15_consts.2.2 rfl hv0 herr]
+    rfl
+
+/-! ## setting the sign bit -/
+
+theorem d15_f64Val_neg (E m : Nat) (v : Rat) (h : f64Val false E m = .fin v) : f64Val true E m = .fin (-v) := by
+  unfold f64Val at h ⊢
+  split
+  · rename_i he
+    rw [if_pos he] at h
+    split at h <;> cases h
+  · rename_i he
+    rw [if_neg he] at h
+    extract_lets at h ⊢
+    rw [if_neg (by decide)] at h
+    rw [if_pos rfl]
+    injection h with h
+    rw [h]
+
+theorem d15_neg_bits (b v) (hlt : b < 2 ^ 63) (hv : f64OfBits b = .fin v) :
+    f64OfBits (2 ^ 63 + b) = .fin (-v) ∧ f64Sign (2 ^ 63 + b) = true := by
+  constructor
+  · rw [f64OfBits_eq] at hv ⊢
+    have h1 : (2 ^ 63 + b) / 2 ^ 63 % 2 = 1 := by omega
+    have h2 : (2 ^ 63 + b) / 2 ^ 52 % 2 ^ 11 = b / 2 ^ 52 % 2 ^ 11 := by omega
+    have h3 : (2 ^ 63 + b) % 2 ^ 52 = b % 2 ^ 52 := by omega
+    have h0 : b / 2 ^ 63 % 2 = 0 := by omega
+    rw [h1, h2, h3]
+    rw [h0] at hv
+    exact d15_f64Val_neg _ _ _ hv
+  · unfold f64Sign
+    have h1 : (2 ^ 63 + b) / 2 ^ 63 % 2 = 1 := by omega
+    rw [h1]; rfl
+
+/-- text → npy → text on one value, in terms of `roundHE`. -/
+theorem d15_text_npy_text (x p : Nat) (q : Rat) (hf : f64OfBits x = .fin q)
+    (h15 : roundHE ((absRat q).num.natAbs * 10 ^ p) (absRat q).den < 10 ^ 15) (hp : p ≤ 300) (b' : Nat)
+    (hb : b' = (if f64Sign x then 2 ^ 63 else 0) +
+      f64BitsOfRatNonneg ((roundHE ((absRat q).num.natAbs * 10 ^ p) (absRat q).den : Rat) / ((10 ^ p : Nat) : Rat))) :
+    fmtFixed b' p = fmtFixed x p := by
+  obtain ⟨p1, _, hlt, v, hv⟩ := d15_print_back _ p h15 hp
+  rw [fmtFixed_fin x p q hf, fmtRatFixed_eq]
+  generalize roundHE ((absRat q).num.natAbs * 10 ^ p) (absRat q).den = R at *
+  generalize f64BitsOfRatNonneg ((R : Rat) / ((10 ^ p : Nat) : Rat)) = b0 at *
+  have p2 := p1
+  rw [fmtFixed_fin b0 p v hv, d15_sign_of_lt b0 hlt] at p2
+  simp only [Bool.false_eq_true, if_false, List.nil_append] at p2
+  cases hs : f64Sign x
+  · rw [hs] at hb
+    simp only [Bool.false_eq_true, if_false, Nat.zero_add] at hb
+    rw [hb, p1]; rfl
+  · rw [hs] at hb
+    simp only [if_true] at hb
+    obtain ⟨n1, n2⟩ := d15_neg_bits b0 v hlt hv
+    rw [hb, fmtFixed_fin _ p _ n1, n2, absRat_neg, p2]
 
 end Sfs
